@@ -24,6 +24,7 @@ import (
 	"github.com/kubewharf/kubegateway/pkg/zzverif/vtime"
 
 	"verifh/ev"
+	"verifh/limrig"
 	"verifh/lin"
 	"verifh/xa"
 	"verifh/xstate"
@@ -375,6 +376,113 @@ func specB() xstate.Spec {
 	}
 }
 
+// ------------------------------------------------------------------ engine B over the request path
+// The same sequential specification, but every report travels the way a gateway's report does: through the real
+// rateLimiter.DoAcquire (leader check, store lookup, answer construction) on limrig - the accounting rules must hold
+// at the door, not only inside globalMaxInflight.
+
+type sysP struct {
+	rig *limrig.Rig
+	m   mstate
+}
+
+const upP = "up-c08"
+
+func (s *sysP) fc() gfc.GlobalFlowControl {
+	fc, err := s.rig.H.Store(0).GetFlowControl(upP, "s")
+	if err != nil {
+		return nil
+	}
+	return fc
+}
+
+func specPath() xstate.Spec {
+	curs := []int32{0, 3, 6}
+	return xstate.Spec{
+		Name: "seq-request-path",
+		New: func() interface{} {
+			s := &sysP{rig: limrig.New(1, "local"), m: mstate{Max: 5}}
+			s.rig.Gain(0)
+			if err := s.rig.ApplyCluster(limrig.MIFCluster(upP, "s", proxyv1alpha1.GlobalCountLimit, 1, 5)); err != nil {
+				panic(err)
+			}
+			return s
+		},
+		Events: func(interface{}) []string {
+			var evs []string
+			for i := 0; i < 2; i++ {
+				for _, cur := range curs {
+					for _, rel := range []string{"next", "same", "older"} {
+						evs = append(evs, fmt.Sprintf("report %d %s %d", i, rel, cur))
+					}
+				}
+			}
+			return append(evs, "resize 2", "resize 8")
+		},
+		Apply: func(si interface{}, e string) error {
+			sys := si.(*sysP)
+			f := strings.Fields(e)
+			var in opIn
+			var out opOut
+			switch f[0] {
+			case "report":
+				i, _ := strconv.Atoi(f[1])
+				cur, _ := strconv.Atoi(f[3])
+				last := sys.m.ID[i]
+				id := last + 1
+				switch f[2] {
+				case "same":
+					id = last
+				case "older":
+					id = last - 1
+				}
+				if id < 1 {
+					id = 1
+				}
+				in = rep(i, id, int32(cur))
+				res, err := sys.rig.L.DoAcquire(upP, limrig.Acquire(upP, instNames[i], "s", id, int32(cur)))
+				if err != nil || len(res.Status.Results) != 1 {
+					return fmt.Errorf("request-path/acquire-failed: %s: %v", in, err)
+				}
+				r := res.Status.Results[0]
+				out = opOut{Accept: r.Accept, Latest: r.Limit, Err: r.Error}
+			case "resize":
+				m, _ := strconv.Atoi(f[1])
+				in = rsz(int32(m))
+				if err := sys.rig.ApplyCluster(limrig.MIFCluster(upP, "s", proxyv1alpha1.GlobalCountLimit, 1, int32(m))); err != nil {
+					return fmt.Errorf("request-path/resize-failed: %v", err)
+				}
+			}
+			next := step(sys.m, in, out, false)
+			if len(next) == 0 {
+				return fmt.Errorf("request-path/%s: model state %+v, %s answered %+v through DoAcquire, which the sequential specification does not allow", classify(sys.m, in, out), sys.m, in, out)
+			}
+			sys.m = next[0]
+			fc := sys.fc()
+			if fc == nil {
+				return fmt.Errorf("request-path/no-flowcontrol: the server holds no counter for the schema")
+			}
+			d := dump(fc)
+			if d.Count != sys.m.total() || d.Per != sys.m.Count || d.Max != sys.m.Max {
+				return fmt.Errorf("request-path/%s: after %s (answer %+v) the server records count=%d per=%v max=%d, the specification says count=%d per=%v max=%d",
+					classify(sys.m, in, out), in, out, d.Count, d.Per, d.Max, sys.m.total(), sys.m.Count, sys.m.Max)
+			}
+			return nil
+		},
+		Canon: func(si interface{}) string {
+			sys := si.(*sysP)
+			has := [3]bool{sys.m.ID[0] > 0, sys.m.ID[1] > 0, sys.m.ID[2] > 0}
+			gt1 := [3]bool{sys.m.ID[0] > 1, sys.m.ID[1] > 1, sys.m.ID[2] > 1}
+			d := opOut{}
+			if fc := sys.fc(); fc != nil {
+				d = dump(fc)
+			}
+			return fmt.Sprint(sys.m.Max, sys.m.Count, has, gt1, d)
+		},
+		Close: func(si interface{}) {},
+	}
+}
+
 func classify(m mstate, in opIn, out opOut) string {
 	if in.Kind == "report" {
 		delta := in.Cur - m.Count[in.Inst]
@@ -510,7 +618,7 @@ func main() {
 		for _, sc := range scenarios() {
 			hs = append(hs, harnessA(c, sc, 0, 1))
 		}
-		xstate.ReplayIfAsked(c, []xstate.Spec{specB()})
+		xstate.ReplayIfAsked(c, []xstate.Spec{specB(), specPath()})
 		xa.ReplayIfAsked(c, hs)
 	}
 	var tasks []ev.Task
@@ -531,6 +639,7 @@ func main() {
 		}
 	}
 	tasks = append(tasks, xstate.Tasks(c, specB(), c.Pick(5, 7), 8)...)
+	tasks = append(tasks, xstate.Tasks(c, specPath(), c.Pick(4, 6), 10)...)
 	tasks = append(tasks, ev.Task{Name: "tokenbucket", Run: func() { tokenBucket(c, c.Pick(5, 6)) }})
 	sort.SliceStable(tasks, func(i, j int) bool { return false })
 	c.RunTasks(tasks)
